@@ -83,7 +83,7 @@ fn action_of_site(site: &str) -> &'static str {
         "m.resize.grow" => "RsGrow",
         "m.close.lock" => "ClLock",
         "m.retain.status" => "RtStatus",
-        "m.retain.lock" => "RtWalk",
+        "m.retain.lock" => "RtLock",
         _ => "Unknown",
     }
 }
@@ -114,6 +114,7 @@ struct Driver<'a> {
     ops_left: usize,
     mode: Vec<(String, String, String)>,
     created: usize,
+    ticked: Vec<bool>,
 }
 
 impl Driver<'_> {
@@ -152,14 +153,11 @@ impl Driver<'_> {
                 }
                 TState::AtPoint(site) => {
                     let a = action_of_site(site);
-                    let x = if a == "RtWalk" {
-                        let ids = w.snapshot().slots.map(|s| s.3).unwrap_or_default();
-                        let keep: Vec<u32> = ids.into_iter().filter(|_| self.rng.gen_bool(0.5)).collect();
-                        vec![json!(keep)]
-                    } else {
-                        vec![]
-                    };
-                    out.push((t, st(a, name, x), 10));
+                    out.push((t, st(a, name, vec![]), 10));
+                }
+                TState::AtCall { kind: CallKind::Pred, .. } => {
+                    out.push((t, st("RtPred", name, vec![json!(true)]), 6));
+                    out.push((t, st("RtPred", name, vec![json!(false)]), 4));
                 }
                 TState::AtCall { kind, idx, .. } => {
                     out.push((t, st("Call", name, vec![json!("ok")]), 10));
@@ -189,6 +187,14 @@ impl Driver<'_> {
                     if w.cfg.has_runtime && ((*k == CallKind::Create && c == "finite") || (*k == CallKind::Recycle && r == "finite")) {
                         out.push((t, st("Expire", name, vec![]), 2));
                     }
+                    let no_deadline = match k {
+                        CallKind::Create => c == "none",
+                        CallKind::Recycle => r == "none",
+                        _ => true,
+                    };
+                    if w.cfg.has_runtime && no_deadline && !self.ticked[t] {
+                        out.push((t, st("Tick", name, vec![]), 1));
+                    }
                 }
                 TState::Pending { gate: None } => {
                     if w.woken(t) || closed {
@@ -199,6 +205,9 @@ impl Driver<'_> {
                         }
                         if self.mode[t].0 == "timed" && w.cfg.has_runtime {
                             out.push((t, st("GWaitExpire", name, vec![]), 2));
+                        }
+                        if self.mode[t].0 == "bl" && w.cfg.has_runtime && !self.ticked[t] {
+                            out.push((t, st("Tick", name, vec![]), 1));
                         }
                     }
                 }
@@ -253,7 +262,7 @@ pub fn run(args: &[String]) {
         let mut rec = Recorder::new(of.is_some());
         rec.begin(run, &w);
         let n = w.cfg.tasks.len();
-        let mut d = Driver { rc: &rc, rng: StdRng::seed_from_u64(seed.wrapping_mul(1_000_003).wrapping_add(run)), ops_left: rc.ops, mode: vec![("bl".into(), "none".into(), "none".into()); n], created: 0 };
+        let mut d = Driver { rc: &rc, rng: StdRng::seed_from_u64(seed.wrapping_mul(1_000_003).wrapping_add(run)), ops_left: rc.ops, mode: vec![("bl".into(), "none".into(), "none".into()); n], created: 0, ticked: vec![false; n] };
         // PCT-style priorities: a task keeps the processor until a change point
         let mut prio: Vec<u32> = (0..n as u32).collect();
         prio.shuffle(&mut d.rng);
@@ -289,15 +298,18 @@ pub fn run(args: &[String]) {
             if st.a == "StartGet" {
                 let s = |i: usize| st.x[i].as_str().unwrap().to_string();
                 d.mode[t] = (s(0), s(1), s(2));
+                d.ticked[t] = false;
             }
             if st.a == "Call" || st.a == "Resume" {
                 if let (Some("ok"), TState::AtCall { kind: CallKind::Create, .. } | TState::Pending { gate: Some((CallKind::Create, _)) }) = (st.x[0].as_str(), &w.ts[t]) {
                     d.created += 1;
                 }
             }
+            if st.a == "Tick" {
+                d.ticked[t] = true;
+            }
             let before = w.ts[t].clone();
-            let cmd = crate::replay::retain_script(&w, t, command_of(&st).unwrap());
-            w.send(t, cmd);
+            w.send(t, command_of(&st).unwrap());
             rec.step(&w, Some(t), &st, Some(&before));
             writeln!(tf, "{}", trace_event(run, seq, &w, Some(t), &st)).unwrap();
             if w.hung {
